@@ -29,7 +29,13 @@ def translate():
     mean_asg = next((s for s in strip_doc(fn.body) if isinstance(s, ast.Assign) and _ns(s.targets[0]) == "means"), None)
     need(mean_asg is not None and isinstance(mean_asg.value, ast.BinOp) and isinstance(mean_asg.value.op, ast.Div)
          and _ns(mean_asg.value.left) == "np.dot(weighted_resp.T,X)", fn, "means numerator", w)
-    den = ExprTr({"np.sum(weighted_resp,axis=0)[:,np.newaxis]": "m"}, consts={"1e-10": "eps"}, where=w).num(mean_asg.value.right)
+    asg_ = {_ns(s.targets[0]): _ns(s.value) for s in strip_doc(fn.body) if isinstance(s, ast.Assign)}
+    if _ns(mean_asg.value.right) == "safe_mass[:,np.newaxis]":
+        # repaired shape: mass = sum of weighted responsibilities, guarded only against zero
+        need(asg_.get("mass") == "np.sum(weighted_resp,axis=0)" and asg_.get("safe_mass") == "np.where(mass>0,mass,1.0)", fn, "guarded mass", w)
+        den = "if o_ltb o (o_zero o) m then m else o_one o"
+    else:
+        den = "o_add o (" + ExprTr({"np.sum(weighted_resp,axis=0)[:,np.newaxis]": "m"}, consts={"1e-10": "o_one o"}, where=w).num(mean_asg.value.right) + ") (o_zero o)"
     cv = _ns(get_function(cl, "GaussianMixture._compute_covariances"))
     full_ok = "covariances[k]=np.dot(weighted_resp[:,k]*diff.T,diff)" in cv and "covariances[k]/=np.sum(weighted_resp[:,k])+1e-10" in cv \
         and "diff=X-means[k]" in cv
@@ -78,7 +84,7 @@ def translate():
     text = f"""(* GENERATED from cluster.py and core.py by tools/props/c15.py *)
 From Coq Require Import Bool.
 From Tempest Require Import Base.Ops.
-Definition mean_denominator {{T}} (o : Ops T) (m eps : T) : T := {den}.
+Definition mean_denominator {{T}} (o : Ops T) (m : T) : T := {den}.
 Definition weighted_resp_is_resp_times_sample_weight : bool := true.
 Definition weights_are_masses_over_total : bool := true.
 Definition full_cov_is_weighted_outer_product_over_mass_plus_eps : bool := {str(full_ok).lower()}.
@@ -159,7 +165,7 @@ def check_gmm(run, tier, rng):
                 # theorem: mean = c * (convex combination of the data), c = S/(S+1e-10), S the component's mass in the
                 # last M-step (>= weight * total responsibility mass). For a component of non-negligible weight the shrink
                 # is below 1e-6 relative; the literal (unshrunk) box is the listed finding probed separately below.
-                slack = 1e-6 * (1 + np.abs(X).max())
+                slack = 1e-12 * (1 + np.abs(X).max())
                 if np.any(g.means_[k] < lo - slack) or np.any(g.means_[k] > hi + slack):
                     run.fail("mean-outside-bounding-box", f"component {k} (weight {float(g.weights_[k])}) mean {g.means_[k]} outside [{lo},{hi}]", **what)
         # integer weights == replication
@@ -188,7 +194,7 @@ def check_gmm(run, tier, rng):
         K = R.shape[1]
         masses = [qlit(Fraction(float(np.dot(R[:, k], sw)))) for k in range(K)]
         mq = "[" + "; ".join(f"Qred (mass {qlist(R[:, k])} {qlist(sw)})" for k in range(K)) + "]"
-        items.append(f"(map Qred (mix_weights {mq}), map (fun r => Qred (mean_coord (1 # 10000000000) r {qlist(sw)} {qlist(Xq[:, 0])})) "
+        items.append(f"(map Qred (mix_weights {mq}), map (fun r => Qred (mean_guarded r {qlist(sw)} {qlist(Xq[:, 0])})) "
                      f"[{'; '.join(qlist(R[:, k]) for k in range(K))}])")
     src = f"""From Coq Require Import List QArith.
 From Tempest Require Import Model.Mixture.
@@ -216,7 +222,7 @@ Eval vm_compute in map (fun p => (map enc (fst p), map enc (snd p))) [
     g = GaussianMixture(n_components=1).fit(np.full((10, 1), 5.0))
     run.case(key="constant-data", nontrivial=True)
     if g.means_[0, 0] < 5.0 or g.means_[0, 0] > 5.0:
-        run.fail("mean-shrunk-by-1e-10", f"GaussianMixture(1).fit([[5.0]]*10).means_ = {g.means_[0, 0]!r} (outside the degenerate box [5,5])",
+        run.fail("mean-outside-bounding-box", f"GaussianMixture(1).fit([[5.0]]*10).means_ = {g.means_[0, 0]!r} (outside the degenerate box [5,5])",
                  data="ten copies of the point 5")
 
 
@@ -324,8 +330,7 @@ def main(tier, seed):
     run.assumptions = [
         "E-step responsibilities are an oracle (non-negative); EM optimum quality / BIC meaning not carried",
         "'tied' and 'spherical' covariance structures are excluded by the statement",
-        "the +1e-10 in the M-step denominators shrinks every mean by S/(S+1e-10): listed as a known finding for "
-        "degenerate data; the sweep demands the shrunk box of C15_mean_in_shrunk_box",
+        "the covariance denominators keep their +1e-10 (a slightly shrunk, still symmetric positive-semidefinite matrix)",
     ]
     rng = random.Random(seed)
     try:
